@@ -109,13 +109,14 @@ def gen_public_key(
             '-days', str(validity_in_days), '-subj', subject,
             '-passin', 'pass:%s' % private_key_password,
             '-config', config_path,
-            '-key', private_key_path, '-out', public_key_path,
+            '-key', private_key_path,
         ]
         if has_extension:
             command.extend([
                 '-extensions', 'PROXY',
             ])
-        return run_openssl_command(command, timeout)
+        command.extend(['-out', public_key_path])
+        return _run_and_publish(command, public_key_path, timeout)
 
 
 def gen_csr(
@@ -133,7 +134,7 @@ def gen_csr(
         '-in', crt_path, '-signkey', key_path,
         '-out', csr_path,
     ]
-    return run_openssl_command(command, timeout)
+    return _run_and_publish(command, csr_path, timeout)
 
 
 def sign_csr(
@@ -162,7 +163,26 @@ def sign_csr(
             '-in', csr_path,
             '-out', crt_path,
         ]
-        return run_openssl_command(command, timeout)
+        return _run_and_publish(command, crt_path, timeout)
+
+
+def _run_and_publish(command: List[str], out_path: str, timeout: int) -> bool:
+    """Runs an openssl command whose last argument is its output file.
+
+    Output is written to a temporary file next to ``out_path`` and moved
+    into place once complete: other threads and processes that check for
+    the existence of ``out_path`` never see a partially written file."""
+    assert command[-1] == out_path
+    tmp_path = '%s.%s.tmp' % (out_path, uuid.uuid4().hex)
+    done = False
+    try:
+        done = run_openssl_command(command[:-1] + [tmp_path], timeout)
+        if done and os.path.exists(tmp_path):
+            os.replace(tmp_path, out_path)
+    finally:
+        if os.path.exists(tmp_path):
+            os.remove(tmp_path)
+    return done
 
 
 def get_ext_config(
